@@ -23,7 +23,8 @@ def check(tier, seed):
     d.explanation = ("Corollary: over a commutative ring, conjugation by a unit preserves the characteristic polynomial (Mathlib: Matrix.charpoly_units_conj) and ring "
                      "homomorphisms commute with it (Matrix.charpoly_map); instantiated with the premises U_inv U = U U_inv = 1 and H_tilde = U_inv H U, which are the "
                      "C01/C02 theorems machine-checked from the extracted equations on this run (re-checked here together with all their PyVC premises).")
-    d.run_battery("bd_battery.py", ["spectrum", "spectrum_implicit"], "3 exact problems of dimension 3-4, truncation order 3, characteristic polynomial compared coefficient-wise; "
+    d.run_battery("bd_battery.py", ["spectrum", "spectrum_sparse", "spectrum_implicit", "herm"], "3 exact problems of dimension 3-4, truncation order 3, characteristic polynomial compared coefficient-wise; "
                   "one 10x10 problem with 2 explicit levels: eigenvalues of the truncated H_tilde^AA (N = 1..3, lambda = 0.02, 0.01) for explicit / implicit direct / implicit KPM / "
-                  "implicit KPM with auxiliary vectors against exact eigenvalues, relative to the explicit truncation error")
+                  "implicit KPM with auxiliary vectors against exact eigenvalues, relative to the explicit truncation error; dense / sparse problems with degenerate levels inside "
+                  "fully diagonalized blocks (N = 1..3); plus the `herm` section (premises C01 / C02)")
     return d.finish(level="proof", trusted_base=["leanalg/lean/PV/Charpoly.lean", "leanalg/lean/PV/MainProof.lean", "contracts/*.py"])
